@@ -346,7 +346,7 @@ def expand_c13(st, seed):
     nv = nin + nunk + 2
     b = 2
     r = dict(kind="sysloss", lkind=lk, dim=dim, th=th, ptab=[[], []], inside=[], border=[], nets=[], eqs=[], wu=[],
-             wform=st["wform"], wrev=bool(st["wform"] == "dict" and rng.random() < 0.5), src="tlc", exc="")
+             wform=st["wform"], wrev=bool(st["wform"] == "dict" and rng.random() < 0.5), shared=bool(st.get("shared")), src="tlc", exc="")
     tmp = dict(lkind=lk, dim=dim)
     set_inside(tmp, rng, b)
     r["inside"] = tmp["inside"]
@@ -371,7 +371,10 @@ def expand_c13(st, seed):
             g = [rpoly(rng, nin, 1, 1) + [dict(c=1, e=[0] * nin)]]
             bnd = [dict(kind=kind, g=g, comp=[1, 1]) for _ in range(2 * dim)]
         r["nets"].append(dict(name=name, V=V, ic=ic, obsd=obsd, bnd=bnd))
-        r["wu"].append(dict(ic=2 + k, norm=1, bnd=3 + k, obs=1 + 2 * k) if st["wform"] == "dict" else dict(ic=2, norm=1, bnd=3, obs=5))
+        if st["wform"] == "nocons":       # weights of the per-unknown terms omitted: ODE systems drop the terms, PDE systems default to 1.0
+            r["wu"].append(dict(ic=0, norm=0, bnd=0, obs=0) if lk == "ode" else dict(ic=1, norm=1, bnd=1, obs=1))
+        else:
+            r["wu"].append(dict(ic=2 + k, norm=1, bnd=3 + k, obs=1 + 2 * k) if st["wform"] == "dict" else dict(ic=2, norm=1, bnd=3, obs=5))
     for e, name in enumerate(enames):
         # asymmetric in t and x, involving every unknown and a parameter
         R = []
@@ -391,7 +394,7 @@ def expand_c13(st, seed):
             ee = [0] * nv
             ee[nv - 2] = 1
             R.append(dict(c=3, e=ee))
-        r["eqs"].append(dict(name=name, R=R, w=(2 + e) if st["wform"] == "dict" else 4))
+        r["eqs"].append(dict(name=name, R=R, w=(2 + e) if st["wform"] == "dict" else (0 if st["wform"] == "nodyn" else 4)))
     return r
 
 
